@@ -12,14 +12,14 @@ import numpy as np
 from ..core.engine import HarnessError, Inapplicable, seed_lib_rng
 from ..core.world import World, pick, swarm_weights
 
-CONTEXTS = ["bare_f", "bare_i", "bare_u", "mesh_vertices", "mesh_faces", "pc_vertices", "path_vertices", "visual_face_colors", "scene_mesh_vertices", "visual_vertex_colors", "pc_colors", "texture_uv"]
+CONTEXTS = ["bare_f", "bare_i", "bare_u", "mesh_vertices", "mesh_faces", "pc_vertices", "path_vertices", "visual_face_colors", "scene_mesh_vertices", "visual_vertex_colors", "pc_colors", "texture_uv", "scene_spare_geometry"]
 
 # routes that go through a method TrackedArray overrides: the array's own flag must be set
 TRACKED_ROUTES = [
     "setitem_index", "setitem_slice", "setitem_mask", "setitem_fancy", "setitem_ellipsis",
     "iadd", "isub", "imul", "itruediv", "ifloordiv", "imod", "ipow",
     "ilshift", "irshift", "iand", "ior", "ixor", "imatmul",
-    "fill", "put", "sort", "partition", "byteswap_inplace", "np_put", "shuffle", "idiom_slice_iadd", "idiom_col_imul", "imul_neg",
+    "fill", "put", "sort", "partition", "byteswap_inplace", "np_put", "shuffle", "idiom_slice_iadd", "idiom_col_imul", "imul_neg", "setitem_partial_fail",
 ]
 # routes numpy offers that bypass every overridden method (recorded findings on the unchanged tree)
 UNTRACKED_ROUTES = [
@@ -123,6 +123,15 @@ def _write(route, x, mir, p):
         x[[i % n for i in p.get("rows", [0])]] = v
     elif route == "setitem_ellipsis":
         x[...] = v
+    elif route == "setitem_partial_fail":
+        # an assignment numpy converts element by element and that fails at the LAST element: everything before it is already stored
+        vals = np.empty(x.shape, dtype=object)
+        vals[...] = v
+        vals.reshape(-1)[-1] = "not a number"
+        if p.get("k", 0) % 2:
+            x[...] = vals
+        else:
+            x[np.ones(x.shape, dtype=bool)] = vals.reshape(-1)
     elif route == "iadd":
         x += _val(x, p.get("d", 1)) if x.dtype.kind == "f" else 1 + p.get("d", 1) % 5
     elif route == "isub":
@@ -434,7 +443,7 @@ class C02(World):
         if ctxn.startswith("bare_"):
             data = _initial(ctxn[-1], n, seed)
             root = tracked_array(data.copy())
-        elif ctxn in ("mesh_vertices", "scene_mesh_vertices", "mesh_faces", "visual_face_colors"):
+        elif ctxn in ("mesh_vertices", "scene_mesh_vertices", "mesh_faces", "visual_face_colors", "scene_spare_geometry"):
             nv = max(n, 4)
             V = _initial("f", nv, seed)
             F = np.array([[0, 1, 2], [0, 2, 3], [0, 3, 1], [1, 3, 2]][: max(2, min(4, n))], dtype=np.int64)
@@ -448,6 +457,12 @@ class C02(World):
                 root = mesh.faces if ctxn == "mesh_faces" else mesh.vertices
                 data = F if ctxn == "mesh_faces" else V
             cont["obj"] = mesh
+            if ctxn == "scene_spare_geometry":
+                # the mesh sits in the scene's geometry without a node that places it (a part kept for later): still part of the scene
+                sc = trimesh.Scene()
+                sc.add_geometry(trimesh.Trimesh(vertices=V + 1, faces=F, process=False), node_name="n1", geom_name="g1")
+                sc.geometry["g0"] = mesh
+                cont["scene"] = sc
             if ctxn == "scene_mesh_vertices":
                 sc = trimesh.Scene()
                 sc.add_geometry(mesh, node_name="n0", geom_name="g0")
@@ -492,7 +507,7 @@ class C02(World):
 
     def _container_hash(self, cont):
         k = cont["kind"]
-        if k == "scene_mesh_vertices":
+        if k in ("scene_mesh_vertices", "scene_spare_geometry"):
             return cont["scene"].__hash__()
         if k in ("visual_face_colors", "visual_vertex_colors", "pc_colors", "texture_uv"):
             return cont["obj"].visual.__hash__()
@@ -523,6 +538,12 @@ class C02(World):
             from trimesh.path.entities import Line
 
             return trimesh.path.Path3D(entities=[Line([0, 1, 2]), Line([2, 0])], vertices=np.array(o.vertices.tolist()), process=False).__hash__()
+        if k == "scene_spare_geometry":
+            sc = trimesh.Scene()
+            g1 = cont["scene"].geometry["g1"]
+            sc.add_geometry(trimesh.Trimesh(vertices=np.array(g1.vertices.tolist()), faces=np.array(g1.faces.tolist(), dtype=np.int64), process=False), node_name="n1", geom_name="g1")
+            sc.geometry["g0"] = trimesh.Trimesh(vertices=np.array(o.vertices.tolist()), faces=np.array(o.faces.tolist(), dtype=np.int64), process=False)
+            return sc.__hash__()
         if k == "scene_mesh_vertices":
             sc = trimesh.Scene()
             for name, node in (("g0", "n0"), ("g1", "n1")):
@@ -626,7 +647,8 @@ class C02(World):
             if exc_a:
                 ctx.count("exc:" + exc_a)
             self._after_write(hs, before, hi, route)
-            if h.tracked and route in TRACKED_ROUTES and exc_a is None:
+            if h.tracked and route in TRACKED_ROUTES and (exc_a is None or route == "setitem_partial_fail"):
+                # (a write that failed half way went through the array's own method all the same)
                 h.m_dirty = True
             ctx.count(("fault:" if route in UNTRACKED_ROUTES or not h.tracked else "route:") + route)
             if not h.tracked:
@@ -681,13 +703,20 @@ class C02(World):
         if k == "reassign":
             cont = st["cont"]
             kind = cont["kind"]
-            if kind not in ("mesh_vertices", "mesh_faces", "pc_vertices", "path_vertices", "scene_mesh_vertices"):
+            if kind not in ("mesh_vertices", "mesh_faces", "pc_vertices", "path_vertices", "scene_mesh_vertices", "scene_spare_geometry"):
                 raise Inapplicable()
             r = hs[st["root"]]
             attr = "faces" if kind == "mesh_faces" else "vertices"
             if op.get("same_object"):
                 setattr(cont["obj"], attr, r.arr)
                 new_arr = getattr(cont["obj"], attr)
+                if new_arr is not r.arr and kind != "path_vertices" and isinstance(new_arr, TA) and np.shares_memory(new_arr, r.arr):
+                    # The container was handed back the very array object it had given out and now holds ANOTHER tracked object over
+                    # the same buffer. The caller still holds the one it was given: writes through it are not writes through "some
+                    # other array": the container hash has to follow them. The handle stays the root; the container is judged by
+                    # its hash against a freshly built one. (A path re-wraps on every assignment: the recorded alias class.)
+                    ctx.count("probe:setter-rewrapped-its-own-array")
+                    return "same-rewrapped"
                 if new_arr is not r.arr:
                     # the setter may re-wrap; treat as a new root sharing or not sharing memory
                     shares = np.shares_memory(new_arr, r.arr)
@@ -784,7 +813,7 @@ class C02(World):
                 ctx.fail("container", cont["kind"] + ("-hash-changed-without-byte-change" if k2 == key else "-hash-blind-to-byte-change"), f"container hash {got} vs earlier {h2}")
         seen[key] = got
         # consequence: a derived value keyed on the hash follows the bytes
-        if cont["kind"] in ("mesh_vertices", "pc_vertices", "scene_mesh_vertices") and np.isfinite(r.mir).all():
+        if cont["kind"] in ("mesh_vertices", "pc_vertices", "scene_mesh_vertices", "scene_spare_geometry") and np.isfinite(r.mir).all():
             b = cont["obj"].bounds
             # a mesh reports the bounds of the vertices its faces reference (always 0..3 here)
             ref = r.mir if cont["kind"] == "pc_vertices" else r.mir[:4]
